@@ -7,6 +7,7 @@ import (
 	"go/parser"
 	"go/token"
 	"os"
+	"os/exec"
 	"path/filepath"
 	"strings"
 	"time"
@@ -71,7 +72,7 @@ func c18Gen(t *rapid.T) cliScenario {
 		sc.Text = rapid.SampledFrom([]string{"", "\n", "# only a comment\n"}).Draw(t, "emptytext")
 	}
 	sc.Source = rapid.SampledFrom([]string{"file", "file", "stdin", "dash", "missing", "directory"}).Draw(t, "source")
-	sc.Dest = rapid.SampledFrom([]string{"default", "named", "stdout", "missing-parent", "directory"}).Draw(t, "dest")
+	sc.Dest = rapid.SampledFrom([]string{"default", "named", "stdout", "missing-parent", "directory", "device-full", "stdout-full"}).Draw(t, "dest")
 	for _, f := range []string{"-inline", "-switch", "-noast", "-strict"} {
 		if rapid.Bool().Draw(t, f) {
 			sc.Flags = append(sc.Flags, f)
@@ -113,6 +114,12 @@ func runScenario(c *drv.Ctx, bin string, sc cliScenario, n int) string {
 		destPath = filepath.Join(dir, "adir")
 		_ = os.MkdirAll(destPath, 0o755)
 		args = append(args, "-output", destPath)
+	case "device-full":
+		// opens, but every write fails with ENOSPC
+		destPath = "/dev/full"
+		args = append(args, "-output", destPath)
+	case "stdout-full":
+		args = append(args, "-output", "-")
 	}
 	switch sc.Source {
 	case "file":
@@ -139,7 +146,13 @@ func runScenario(c *drv.Ctx, bin string, sc cliScenario, n int) string {
 			destPath = "" // standard streams
 		}
 	}
-	exit, stdout, stderr := runPeg(bin, dir, stdin, nil, args...)
+	var exit int
+	var stdout, stderr string
+	if sc.Dest == "stdout-full" {
+		exit, stderr = runPegStdoutFull(bin, dir, stdin, args...)
+	} else {
+		exit, stdout, stderr = runPeg(bin, dir, stdin, nil, args...)
+	}
 	strict := false
 	for _, f := range sc.Flags {
 		if f == "-strict" {
@@ -156,6 +169,8 @@ func runScenario(c *drv.Ctx, bin string, sc cliScenario, n int) string {
 		cause = "destination's parent directory does not exist"
 	case sc.Dest == "directory":
 		cause = "destination is a directory"
+	case sc.Dest == "device-full" || sc.Dest == "stdout-full":
+		cause = "destination cannot be written (no space left on device)"
 	case sc.Grammar == "syntax-error" || sc.Grammar == "empty":
 		cause = "grammar syntax error"
 	case sc.Grammar == "bad-go":
@@ -225,7 +240,7 @@ func c18Run(c *drv.Ctx) error {
 		return err
 	}
 	var scs []cliScenario
-	res := drv.RunRapid("C18", c.Pick(160, 1600), drv.ShardSeed(c.Seed, "c18", 0), time.Second, func(t *rapid.T) {
+	res := drv.RunRapid("C18", c.Pick(480, 4000), drv.ShardSeed(c.Seed, "c18", 0), time.Second, func(t *rapid.T) {
 		scs = append(scs, c18Gen(t))
 	})
 	if res.Failed {
@@ -293,9 +308,32 @@ func init() {
 		return runScenario(c, bin, sc, 0), nil
 	})
 	drv.Register("C18",
-		"rapid-generated scenarios for the built peg binary, each in a fresh temporary directory: grammar in {valid, warned (unused rule), syntax error (junk spliced in / truncated), empty, action that is not Go} x source in {file, stdin, '-', missing file, a directory} x destination in {default <grammar>.go, named file, -output -, missing parent directory, a directory} x any subset of -inline -switch -noast -strict. Expected outcome table: a missing/unreadable source, a syntax error, an unwritable destination, un-parseable generated code or a warning under -strict give exit!=0 and a message on stderr, with and without -strict; otherwise exit 0, the destination exists (default name <grammar>.go, stdout for -output - or stdin input), parses as Go, contains the Init method and ends properly, equals the in-process generation for the same arguments byte for byte (clean grammars), and stderr is empty (clean) or carries the warning. Non-trivial: a failure cause, or a non-default source/destination; distinct = scenario.",
+		"rapid-generated scenarios for the built peg binary, each in a fresh temporary directory: grammar in {valid, warned (unused rule), syntax error (junk spliced in / truncated), empty, action that is not Go} x source in {file, stdin, '-', missing file, a directory} x destination in {default <grammar>.go, named file, -output -, missing parent directory, a directory, /dev/full, standard output on /dev/full} x any subset of -inline -switch -noast -strict. Expected outcome table: a missing/unreadable source, a syntax error, an unwritable destination, un-parseable generated code or a warning under -strict give exit!=0 and a message on stderr, with and without -strict; otherwise exit 0, the destination exists (default name <grammar>.go, stdout for -output - or stdin input), parses as Go, contains the Init method and ends properly, equals the in-process generation for the same arguments byte for byte (clean grammars), and stderr is empty (clean) or carries the warning. Non-trivial: a failure cause, or a non-default source/destination; distinct = scenario.",
 		[]string{"checks run as root, so an unwritable destination is modelled by a missing parent directory and by a directory in place of the file"},
 		c18Run)
+}
+
+// runPegStdoutFull runs peg with standard output connected to /dev/full.
+func runPegStdoutFull(bin, dir, stdin string, args ...string) (int, string) {
+	full, err := os.OpenFile("/dev/full", os.O_WRONLY, 0)
+	if err != nil {
+		return -1, err.Error()
+	}
+	defer full.Close()
+	cmd := exec.Command(bin, args...)
+	cmd.Dir = dir
+	cmd.Stdin = strings.NewReader(stdin)
+	cmd.Stdout = full
+	var se bytes.Buffer
+	cmd.Stderr = &se
+	err = cmd.Run()
+	if err != nil {
+		if ee, ok := err.(*exec.ExitError); ok {
+			return ee.ExitCode(), se.String()
+		}
+		return -1, se.String()
+	}
+	return 0, se.String()
 }
 
 // generateWithArgs runs the generator in process with the CLI's argument list (the header
